@@ -115,7 +115,7 @@ def dir_check(pid, kinds, nontrivial, rule, cfg_policy="alt", extra_quick_cfgs=(
     exported = export_behaviours(chk, cfgs, simulate=sim)
     bs = make_behaviours(chk, exported, kinds, cfg_policy="both" if chk.tier == "thorough" else cfg_policy)
     traces = run_dir_harness(chk, bs)
-    results = validate_traces("TraceDirectory", "TraceDirectory.cfg", traces, chk.wd)
+    results = validate_traces("TraceDirectory", "TraceDirectory.cfg", traces, chk.wd, chunk=8000 if chk.tier == "thorough" else None)
     chk.handle_validation(results)
     count_nontrivial(chk, traces, nontrivial)
     chk.cov["rule"] = rule
